@@ -40,7 +40,7 @@ fn pick_paths(rng: &mut Rng, n: usize) -> Vec<String> {
         .collect()
 }
 
-fn gen_project(rng: &mut Rng, fenced: &BTreeSet<String>, n: usize) -> (Vec<SrcFile>, Vec<SrcFile>, Vec<Option<String>>) {
+fn gen_project(rng: &mut Rng, fenced: &BTreeSet<String>, builtins: &BTreeSet<String>, n: usize) -> (Vec<SrcFile>, Vec<SrcFile>, Vec<Option<String>>) {
     let mut paths = pick_paths(rng, n);
     // sometimes two files share a base name in different directories
     if n >= 2 && rng.chance(1, 4) {
@@ -56,17 +56,37 @@ fn gen_project(rng: &mut Rng, fenced: &BTreeSet<String>, n: usize) -> (Vec<SrcFi
     let mut xfaults: Vec<Option<String>> = vec![];
     {
         let mut g = Gen::new(rng, fenced, "");
+        g.conservative = true;
         for (i, p) in paths.iter().enumerate() {
             let prefix = format!("f{}", (b'a' + i as u8) as char);
             let visible: BTreeSet<usize> = (0..i).filter(|_| g.rng.chance(1, 2)).collect();
-            g.begin_file(i, &prefix, &visible);
-            g.small_program();
-            // when something of another file is visible, use it for certain
-            let foreign = g.foreign_plain_classes();
-            if !foreign.is_empty() {
-                let ci = *g.rng.pick(&foreign);
-                let l = g.use_line(ci);
-                g.out.push_str(&l);
+            // file programs come from the hash-stable part of the generator: a file that shows a
+            // feature of an open finding (computed from its text) is generated again
+            for attempt in 0..12 {
+                let (nc, nf) = (g.classes.len(), g.funs.len());
+                g.begin_file(i, &prefix, &visible);
+                g.small_program();
+                // when something of another file is visible, use it for certain
+                let foreign = g.foreign_plain_classes();
+                if !foreign.is_empty() {
+                    let ci = *g.rng.pick(&foreign);
+                    let l = g.use_line(ci);
+                    g.out.push_str(&l);
+                }
+                let feats = corpus::features_of(&[SrcFile { path: p.clone(), text: g.out.clone() }], builtins);
+                if !feats.iter().any(|f| fenced.contains(f)) {
+                    break;
+                }
+                // forget what the rejected attempt declared
+                g.classes.truncate(nc);
+                g.funs.truncate(nf);
+                g.class_file.truncate(nc);
+                g.fun_file.truncate(nf);
+                g.interfaces.retain(|&x| x < nc);
+                if attempt == 11 {
+                    g.begin_file(i, &prefix, &visible);
+                    g.out = format!("def {prefix}only := 1\n");
+                }
             }
             files.push(SrcFile { path: p.clone(), text: g.out.clone() });
             let xf = g.cross_fault_line(&prefix);
@@ -263,6 +283,7 @@ fn class_block(text: &str, kname: &str) -> (String, String) {
 fn visibility_relation(rng: &mut Rng, fenced: &BTreeSet<String>) -> Option<Rel> {
     for _ in 0..6 {
         let mut g = Gen::new(rng, fenced, "");
+        g.conservative = true;
         g.begin_file(0, "la", &BTreeSet::new());
         g.small_program();
         let lib_text = g.out.clone();
@@ -284,6 +305,13 @@ fn visibility_relation(rng: &mut Rng, fenced: &BTreeSet<String>) -> Option<Rel> 
         if k_block.is_empty() {
             continue;
         }
+        let feats = corpus::features_of(
+            &[SrcFile { path: "lib.mamba".into(), text: lib_text.clone() }, SrcFile { path: "user.mamba".into(), text: format!("{body}{use_line}") }],
+            &corpus::builtin_names(),
+        );
+        if feats.iter().any(|f| fenced.contains(f)) {
+            continue;
+        }
         return Some(Rel::Visibility {
             lib: SrcFile { path: "lib.mamba".into(), text: lib_text },
             user_body: SrcFile { path: "pkg/user.mamba".into(), text: body },
@@ -299,6 +327,7 @@ fn visibility_relation(rng: &mut Rng, fenced: &BTreeSet<String>) -> Option<Rel> 
 /// steps).  The returned scenario is fully explicit; re-executing it gives the same outcome.
 pub fn gen_and_run(seed: u64, index: u64, scratch: &str, cfg: &GenCfg, fenced: &BTreeSet<String>) -> (C13Scenario, HistOutcome) {
     let mut rng = Rng::new(seed).fork(index.wrapping_mul(2) + 1);
+    let builtins = corpus::builtin_names();
     let root_name = if !fenced.contains("glob_meta_in_project_path") && rng.chance(1, 6) { rng.pick(ROOTS_GLOB).to_string() } else { rng.pick(ROOTS).to_string() };
     let nfiles = match rng.below(10) {
         0 | 1 => 1,
@@ -307,7 +336,7 @@ pub fn gen_and_run(seed: u64, index: u64, scratch: &str, cfg: &GenCfg, fenced: &
         8 => 4,
         _ => 5,
     };
-    let (files, bystanders, xfaults) = gen_project(&mut rng, fenced, nfiles);
+    let (files, bystanders, xfaults) = gen_project(&mut rng, fenced, &builtins, nfiles);
     let mut layout = Layout::default();
     match rng.below(10) {
         0 | 1 => layout.src = Some(rng.pick(&["custom_src", "source code", "."]).to_string()),
@@ -446,11 +475,23 @@ pub fn gen_and_run(seed: u64, index: u64, scratch: &str, cfg: &GenCfg, fenced: &
                         break;
                     }
                 }
-                let text = {
-                    let mut g = Gen::new(&mut rng, fenced, &prefix);
-                    g.small_program();
-                    g.out.clone()
-                };
+                let mut text = String::new();
+                for attempt in 0..12 {
+                    let t = {
+                        let mut g = Gen::new(&mut rng, fenced, &prefix);
+                        g.conservative = true;
+                        g.small_program();
+                        g.out.clone()
+                    };
+                    let feats = corpus::features_of(&[SrcFile { path: path.clone(), text: t.clone() }], &builtins);
+                    text = t;
+                    if !feats.iter().any(|f| fenced.contains(f)) {
+                        break;
+                    }
+                    if attempt == 11 {
+                        text = format!("def {prefix}only := 1\n");
+                    }
+                }
                 cur_files.push(SrcFile { path, text });
                 note = "add_unrelated".to_string();
                 let ev = push(&mut sc, &mut h, Op::Project { files: cur_files.clone(), bystanders: cur_by.clone(), faulty: None, note });
@@ -526,8 +567,9 @@ pub fn gen_and_run(seed: u64, index: u64, scratch: &str, cfg: &GenCfg, fenced: &
 /// run) from the same prepared state.
 pub fn enumerate_faults(seed: u64, index: u64, scratch: &str, fenced: &BTreeSet<String>, stride: usize) -> Vec<C13Scenario> {
     let mut rng = Rng::new(seed ^ 0xE17).fork(index);
+    let builtins = corpus::builtin_names();
     let nfiles = rng.range(1, 3) as usize;
-    let (files, bystanders, _) = gen_project(&mut rng, fenced, nfiles);
+    let (files, bystanders, _) = gen_project(&mut rng, fenced, &builtins, nfiles);
     let base = C13Scenario {
         property: "C13".into(),
         seed,
